@@ -120,7 +120,7 @@ def pipeBurstLine (ts : List String) : String :=
       let fs0 := initOps.foldl (fun fs op => (kernelOp fs k0 op).1) FS.init
       let s0 := Sys.start fs0 (bool01 rec) (bool01 full)
       let (fin, outs) := bursts.foldl (fun (acc : Sys × List String) ops =>
-          let simple := allFileB acc.1 ops
+          let simple := if acc.1.lib.recursive then allFileB acc.1 ops else allValidNoRootB acc.1 ops
           let (s1, evs) := acc.1.burst ops
           (s1, acc.2 ++ [",".intercalate (canonEvents evs) ++ s!" simple={b01 simple}"])) (s0, [])
       let tree := sortStr ((fin.fs.ents.filter (fun (e : Ent) => isUnder ["W"] e.path)).map
